@@ -55,3 +55,79 @@ Example C05_user_dicform_ref_refuted :
   | None => None
   end = None.
 Proof. vm_compute. reflexivity. Qed.
+
+(* ------------------------------------------------------------------ connection matrix *)
+From SudachiVerif Require Import Model.GuardLang Model.CodecConn Proofs.CodecConnProofs.
+From SudachiVerif Require Generated.ConnIndex Generated.BuildGuards.
+
+(* a 3 x 2 table (non-square), a repeated and a missing cell, extreme costs: the hypotheses of C05_matrix_roundtrip hold *)
+Definition ex_lines : list cline := [(0, 0, 5); (2, 1, -32768); (1, 0, 7); (2, 1, 32767); (0, 1, -1)]%Z.
+Example ex_matrix_compiles :
+  forallb cline_ok ex_lines = true /\ conn_compile 3 2 ex_lines = Some [5; 7; 0; -1; 0; 32767]%Z.
+Proof. split; vm_compute; reflexivity. Qed.
+Example ex_matrix_costs :
+  match conn_compile 3 2 ex_lines with
+  | Some m => map (fun lr => section_cost (conn_section 3 2 m) (fst lr) (snd lr)) [(0, 0); (1, 0); (2, 0); (0, 1); (1, 1); (2, 1)]%Z
+  | None => []
+  end = [Some 5; Some 7; Some 0; Some (-1); Some 0; Some 32767]%Z.
+Proof. vm_compute. reflexivity. Qed.
+
+(* why the obligation C05_conn_formulas_agree is needed: with the writer's stride changed to num_right and the reader
+   unchanged (the seeded change C05-m1) the obligation is false, and on the 3 x 2 table the cell (0, 1) reads 0, not -1 *)
+Definition wrong_stride : iexp := IAdd (IMul IRight INumRight) ILeft.
+Example C05_matrix_roundtrip_one_sided_stride_refuted :
+  conn_facts_ok_with BuildGuards.write_elem_left_guards BuildGuards.write_elem_right_guards wrong_stride ConnIndex.matrix_index = false
+  /\ match conn_compile_with BuildGuards.write_elem_left_guards BuildGuards.write_elem_right_guards wrong_stride 3 2
+                             [(0, 0, 5); (0, 1, -1)]%Z with
+     | Some m => section_cost (conn_section 3 2 m) 0 1
+     | None => None
+     end = Some 0%Z.
+Proof. split; vm_compute; reflexivity. Qed.
+
+(* ------------------------------------------------------------------ a whole lexicon in a file *)
+From SudachiVerif Require Import Proofs.CodecLexProofs Model.CodecResolve Proofs.CodecResolveProofs Proofs.CodecResolveLexProofs.
+
+Definition ex_prefix : bytes := repeat 170 300.
+Definition ex_es : list entry := [e0; e1].
+Example ex_lexicon_hyps :
+  (exists sec, write_words_section (N.of_nat (List.length ex_prefix)) ex_es = Some sec
+               /\ N.of_nat (List.length (ex_prefix ++ sec)) < 4294967296)
+  /\ lexicon_wf ex_es.
+Proof.
+  split.
+  - eexists. split; [vm_compute; reflexivity|vm_compute; reflexivity].
+  - intros e [<-|[<-|[]]]; vm_compute; repeat split; congruence.
+Qed.
+(* entry 1 (dictionary form = entry 0) read through the offset table of the file *)
+Example ex_lexicon_read :
+  match write_words_section 300 ex_es with
+  | Some sec => let file := ex_prefix ++ sec in
+                (file_count file 300,
+                 option_map (fun i => (as_text (accessor A_surface i), as_text (accessor A_dicform i))) (get_word_info (lexicon_of_file file 300) true 1 ALL),
+                 file_params file 300 1)
+  | None => (0, None, None)
+  end = (2, Some ([134047; 128158], [20140; 37117]), Some (-1, 2, -32768)%Z).
+Proof. vm_compute. reflexivity. Qed.
+
+(* ------------------------------------------------------------------ inline references *)
+(* three rows: two homonyms 東/POS 4/reading ヒガシ (rows 0 and 2) and a row whose split column refers to them inline
+   and to row 0 by number: the inline reference resolves to the FIRST homonym, row 0 *)
+Definition r_higashi : entry := mkEntry [26481] 3 4 [26481] 4294967295 [12498; 12460; 12471] [] [] [] [] 7 7 4675.
+Definition ex_rows : list rrow :=
+  [ mkRow [26481] r_higashi [] [];
+    mkRow [26481; 20140] (mkEntry [26481; 20140] 6 3 [] 4294967295 [] [] [] [] [] 6 6 100)
+          [inline_of [26481] 4 [12498; 12460; 12471]; SRef 0] [inline_of [26481] 4 [12498; 12460; 12471]];
+    mkRow [26481] r_higashi [] [] ].
+Example ex_resolution :
+  option_map (map (fun e => (e_splits_a e, e_splits_b e))) (resolve_rows false ex_rows []) = Some [([], []); ([0; 0], [0]); ([], [])].
+Proof. vm_compute. reflexivity. Qed.
+(* a reference nobody matches stops the build *)
+Example ex_unresolvable :
+  resolve_rows false [mkRow [26481] r_higashi [inline_of [26481] 5 [12498; 12460; 12471]] []] [] = None.
+Proof. vm_compute. reflexivity. Qed.
+(* user dictionary: own rows win over system words, system words are found otherwise *)
+Example ex_user_resolution :
+  (resolve_inline 1 (map own_key ex_rows) (map sys_key [r_higashi]) [26481] 4 (Some [12498; 12460; 12471]),
+   resolve_inline 1 [] (map sys_key [r_higashi]) [26481] 4 (Some [12498; 12460; 12471]))
+  = (Some 268435456, Some 0).
+Proof. vm_compute. reflexivity. Qed.
